@@ -18,7 +18,7 @@ Definition dec_path (x : sx) : path :=
 (** call: [(tag args...)]
     0 Creat fd path trunc | 1 OpenW fd path | 2 OpenDir fd dir | 3 Write fd len
     4 Pwrite fd off len | 5 Ftruncate fd len | 6 Fsync fd | 7 Close fd
-    8 Rename src dst | 9 Unlink path | 10 Ack path *)
+    8 Rename src dst | 9 Unlink path | 10 Ack path | 11 Mkdir dir | 12 Rmdir dir *)
 Definition dec_call (x : sx) : syscall :=
   let tag := asN (nthx 0 x) in
   let a := nthx 1 x in
@@ -34,6 +34,8 @@ Definition dec_call (x : sx) : syscall :=
   else if N.eqb tag 7 then Close (asN a)
   else if N.eqb tag 8 then Rename (dec_path a) (dec_path b)
   else if N.eqb tag 9 then Unlink (dec_path a)
+  else if N.eqb tag 11 then Mkdir (asN a)
+  else if N.eqb tag 12 then Rmdir (asN a)
   else Ack (dec_path a).
 
 Definition dec_init (x : sx) : list (path * N) :=
